@@ -65,6 +65,22 @@ func (e *env) eval(x ast.Expr, iota int64) (constant.Value, bool) {
 			return e.eval(v.Args[0], iota)
 		}
 	case *ast.SelectorExpr: // math.MaxUint16 and friends
+		if id, ok := v.X.(*ast.Ident); ok && id.Name == "http" { // the net/http status names the handshake uses (RFC 9110 values)
+			switch v.Sel.Name {
+			case "StatusBadRequest":
+				return constant.MakeInt64(400), true
+			case "StatusForbidden":
+				return constant.MakeInt64(403), true
+			case "StatusMethodNotAllowed":
+				return constant.MakeInt64(405), true
+			case "StatusUpgradeRequired":
+				return constant.MakeInt64(426), true
+			case "StatusNotImplemented":
+				return constant.MakeInt64(501), true
+			case "StatusSwitchingProtocols":
+				return constant.MakeInt64(101), true
+			}
+		}
 		if id, ok := v.X.(*ast.Ident); ok && id.Name == "math" {
 			switch v.Sel.Name {
 			case "MaxUint16":
@@ -351,6 +367,8 @@ type atoms struct {
 
 func exprKey(x ast.Expr) string {
 	switch v := x.(type) {
+	case *ast.BasicLit:
+		return v.Value
 	case *ast.Ident:
 		return v.Name
 	case *ast.SelectorExpr:
@@ -406,6 +424,25 @@ func (e *env) aCond(x ast.Expr, a atoms) string {
 			return "(andb " + e.aCond(v.X, a) + " " + e.aCond(v.Y, a) + ")"
 		case token.LOR:
 			return "(orb " + e.aCond(v.X, a) + " " + e.aCond(v.Y, a) + ")"
+		}
+		if v.Op == token.EQL || v.Op == token.NEQ {
+			// comparisons with a string literal or nil are atoms of their own: <expr>==<literal>
+			lit := ""
+			if bl, ok := v.Y.(*ast.BasicLit); ok && bl.Kind == token.STRING {
+				lit = bl.Value
+			} else if id, ok := v.Y.(*ast.Ident); ok && id.Name == "nil" {
+				lit = "nil"
+			}
+			if lit != "" {
+				at, ok := a.b[exprKey(v.X)+"=="+lit]
+				if !ok {
+					fail("%s: comparison outside the grammar at %v", a.w, e.fset.Position(x.Pos()))
+				}
+				if v.Op == token.NEQ {
+					return "(negb " + at + ")"
+				}
+				return at
+			}
 		}
 		l, r := e.azExpr(v.X, a), e.azExpr(v.Y, a)
 		switch v.Op {
@@ -718,6 +755,87 @@ func (e *env) readCode(outdir string) {
 	}
 }
 
+// statusChain renders a function made of `if cond { ...; return <status>, err }` checks (an Init statement and plain
+// assignments between the checks are allowed: what they compute is named by the atoms) ending in `return <status>, nil`.
+func (e *env) statusChain(stmts []ast.Stmt, a atoms) string {
+	out := ""
+	for _, st := range stmts {
+		switch s := st.(type) {
+		case *ast.AssignStmt:
+			continue
+		case *ast.IfStmt:
+			if s.Else != nil || len(s.Body.List) == 0 {
+				fail("%s: check outside the grammar at %v", a.w, e.fset.Position(s.Pos()))
+			}
+			rs, ok := s.Body.List[len(s.Body.List)-1].(*ast.ReturnStmt)
+			if !ok || len(rs.Results) != 2 {
+				fail("%s: a check that does not return (status, error) at %v", a.w, e.fset.Position(s.Pos()))
+			}
+			out += fmt.Sprintf("if %s then %s else\n  ", e.aCond(s.Cond, a), e.azExpr(rs.Results[0], a))
+		case *ast.ReturnStmt:
+			if len(s.Results) != 2 {
+				fail("%s: final return outside the grammar", a.w)
+			}
+			return out + e.azExpr(s.Results[0], a)
+		default:
+			fail("%s: statement outside the grammar at %v", a.w, e.fset.Position(st.Pos()))
+		}
+	}
+	fail("%s: control reaches the end of the function without return", a.w)
+	return ""
+}
+
+// acceptCode writes Gen/AcceptCode.v: the order of the checks of verifyClientRequest and the HTTP status each one answers with.
+func (e *env) acceptCode(outdir string) {
+	var c strings.Builder
+	c.WriteString("(* GENERATED by /verif/tools/constx from /repo's working tree (accept.go verifyClientRequest) on every run — do not edit. *)\n")
+	c.WriteString("From Coq Require Import ZArith Bool.\n\n")
+	fd := e.fnIn("accept.go", "verifyClientRequest")
+	a := atoms{w: "verifyClientRequest",
+		b: map[string]string{
+			"r.ProtoAtLeast(1,1)": "proto_ok",
+			"headerContainsTokenIgnoreCase(r.Header,\"Connection\",\"Upgrade\")": "conn_upgrade",
+			"headerContainsTokenIgnoreCase(r.Header,\"Upgrade\",\"websocket\")":  "upg_websocket",
+			"r.Method==\"GET\"": "method_get",
+			"r.Header.Get(\"Sec-WebSocket-Version\")==\"13\"": "version_13",
+			"err==nil": "key_decodes",
+		},
+		z: map[string]string{"len(websocketSecKeys)": "nkeys", "len(v)": "keylen"}}
+	// the names the atoms rely on must be what the source computes
+	want := map[string]string{"websocketSecKeys": "r.Header.Values(\"Sec-WebSocket-Key\")", "websocketSecKey": "strings.TrimSpace(websocketSecKeys[0])"}
+	for _, st := range fd.Body.List {
+		if as, ok := st.(*ast.AssignStmt); ok && len(as.Lhs) == 1 && len(as.Rhs) == 1 {
+			n := exprKey(as.Lhs[0])
+			if w, ok := want[n]; ok {
+				got := exprKey(as.Rhs[0])
+				if ie, ok := as.Rhs[0].(*ast.CallExpr); ok && len(ie.Args) == 1 {
+					if ix, ok := ie.Args[0].(*ast.IndexExpr); ok {
+						got = exprKey(ie.Fun) + "(" + exprKey(ix.X) + "[" + exprKey(ix.Index) + "])"
+					}
+				}
+				if got != w {
+					fail("verifyClientRequest: %s is computed as %s, expected %s", n, got, w)
+				}
+				delete(want, n)
+			}
+		}
+		if is, ok := st.(*ast.IfStmt); ok && is.Init != nil {
+			as, ok := is.Init.(*ast.AssignStmt)
+			if !ok || len(as.Rhs) != 1 || exprKey(as.Rhs[0]) != "base64.StdEncoding.DecodeString(websocketSecKey)" || len(as.Lhs) != 2 || exprKey(as.Lhs[0]) != "v" || exprKey(as.Lhs[1]) != "err" {
+				fail("verifyClientRequest: the key check is not `v, err := base64.StdEncoding.DecodeString(websocketSecKey)`")
+			}
+		}
+	}
+	if len(want) != 0 {
+		fail("verifyClientRequest: assignments the translation relies on were not found: %v", want)
+	}
+	fmt.Fprintf(&c, "(* the status verifyClientRequest answers with (0 = the request is accepted): proto_ok = r.ProtoAtLeast(1,1); conn_upgrade / upg_websocket =\n   headerContainsTokenIgnoreCase(r.Header, \"Connection\", \"Upgrade\") / (.., \"Upgrade\", \"websocket\"); method_get = r.Method == \"GET\";\n   version_13 = r.Header.Get(\"Sec-WebSocket-Version\") == \"13\"; nkeys = number of Sec-WebSocket-Key values; key_decodes / keylen =\n   base64.StdEncoding.DecodeString(strings.TrimSpace(first key)) succeeded / the length of its result *)\n")
+	fmt.Fprintf(&c, "Definition gen_verify_request (proto_ok conn_upgrade upg_websocket method_get version_13 : bool) (nkeys : Z) (key_decodes : bool) (keylen : Z) : Z :=\n  %s.\n", e.statusChain(fd.Body.List, a))
+	if err := os.WriteFile(filepath.Join(outdir, "AcceptCode.v"), []byte(c.String()), 0o644); err != nil {
+		fail("%v", err)
+	}
+}
+
 func main() {
 	if len(os.Args) != 3 {
 		fail("usage: constx <repo> <outdir>")
@@ -828,4 +946,5 @@ func main() {
 	}
 	e.frameCode(outdir)
 	e.readCode(outdir)
+	e.acceptCode(outdir)
 }
